@@ -139,7 +139,7 @@ class Prop(BaseProp):
             with rec.installed():
                 try:
                     w = BaseWallet.from_extended_key(case["s"])
-                    ob = [bool(w.testnet), bool(w.watch_only), w.master.key.hex(), w.master.chain_code.hex(), w.master.depth, w.master.index]
+                    ob = [bool(w.testnet), bool(w.watch_only), w.master.key.hex(), w.master.chain_code.hex(), w.master.depth, w.master.index, bool(w.master.testnet)]
                 except Exception:
                     ob = None
             return {"ob": ob, "or": c_oracles(rec), "err": ob is None}
@@ -173,8 +173,8 @@ class Prop(BaseProp):
         if k == "PubOfPrv":
             return "(PubOfPrv %s %s (%d) %s %s)" % (obs["or"], c_start(case["start"]), case["v"], cres(obs["direct"], zs), cres(obs["re"], zs))
         if k == "FromExt":
-            return "(FromExt %s %s %s)" % (obs["or"], zs(case["s"]), cres(obs["ob"], lambda o: '(%s, %s, "%s", "%s", %d, %d)' % (
-                cbool(o[0]), cbool(o[1]), o[2], o[3], o[4], o[5])))
+            return "(FromExt %s %s %s)" % (obs["or"], zs(case["s"]), cres(obs["ob"], lambda o: '(%s, %s, "%s", "%s", %d, %d, %s)' % (
+                cbool(o[0]), cbool(o[1]), o[2], o[3], o[4], o[5], cbool(o[6]))))
         if k == "Ver":
             return "(Ver %d %d %s %s %s)" % (case["kt"], case["bip"], cbool(case["net"]), cres(obs["i"], lambda i: "(%d)" % i), cres(obs["back"], tr))
         return "(VerParse (%d) %s)" % (case["v"], cres(obs["back"], tr))
